@@ -27,9 +27,18 @@ For every response:
   (e) truncation: every proper prefix (every byte offset) of four emitted files (one with shared key tags) either fails to load
       (decode + response_from_xml + validate_response, as load_skr does) or loads to the identical
       response — never to a different valid response                                          [property]
-  (f) boundary witnesses (multi-line element text F6, year < 1000 F7, entity / quote / tab characters,
+  (f) boundary witnesses (multi-line element text F6, year < 1000 F7, quote / control characters,
       empty algorithm set) replayed on the implementation; recorded in notes; F6 is reachable by the
       signer (a KSR with line-wrapped base64 loads and validates) and is reported as a violation
+  (f') VERBATIM TEXT (REFERENCE_IDS / BARE_AMP_IDS; `verbatim:*` stream n = 1..9 real and arbitrary signatures, and every
+      text at every position id / domain / bundle id / key identifier): attribute texts holding entity or character
+      references (`&amp;`, `&amp;amp;`, `&lt;`, `&#252;`, `&#x2d;`, `&quot;`, `&apos;`), tabs, or ampersands that are no
+      reference.  The repository's reader resolves no references, so such a text in a KSR reaches the signer verbatim and
+      the response is REACHABLE although outside the Lean WriterDomain.  Judged by the property itself: (b) read-back
+      identity, (c) validation, and — references well-formed — (d) well-formed, schema-conformant, read by the standards
+      parser as the same response with the references resolved / tabs normalised (ceremony_run.resolve_references, this
+      harness's own transcription of XML 1.0); (a) model text == implementation text as everywhere (the writer model is
+      total: it renders the text verbatim).  Counters verbatim-text:*.
   (g) codecs: timedelta_to_duration / duration_to_timedelta / format_datetime / parse_datetime /
       _indent / str.isspace / date ordinals — implementation vs model on >= 20 000 values incl.
       malformed strings; the round-trip laws and ISO 8601 duration semantics are evaluated on the
@@ -114,6 +123,8 @@ GOOD_IDS = [
     "4fe9bb10-6f6b-4503-8575-7824e2d66925",
     "a",
     "Kjqmt7v",
+    "Kjqmt7",  # (a proper prefix of / differing only in case from another identifier of the dictionary)
+    "kjqmt7v",
     "id with spaces",
     " lead and trail ",
     "ключ-é-鍵",
@@ -128,6 +139,15 @@ GOOD_IDS = [
     "𝔘𝔫𝔦",
 ]
 BAD_IDS = ['a"b', "a<b", "a>b", "a&b", "a&amp;b", "a\nb", "a\tb", "", "a\rb", "a\x00b", "a\x1fb"]
+# XML-SPECIAL TEXT THE READER HANDS OVER VERBATIM.  The repository's reader resolves no references: a KSR whose id is written
+# `root&amp;arpa` yields the id `root&amp;arpa` (ten characters), the signer copies it, and the writer must put exactly that back
+# (the next ceremony compares a new KSR's id with what this SKR shows, both read by that reader).  Such responses are outside the
+# Lean WriterDomain (TextSafe excludes `&`) but REACHABLE; they are judged by the property's clauses (b)(c)(d) all the same:
+# read-back identity, validation, and — when the references are well-formed — a standards parser reading the same response
+# with the references resolved (ceremony_run.resolve_references: this harness's transcription of XML 1.0 §3.3.3 / §4.1 / §4.6).
+REFERENCE_IDS = ["a&amp;b", "root&amp;arpa-2026-q1", "a&amp;amp;b", "&lt;tag&gt;", "x&#252;y", "x&#x2d;y", "&quot;q&quot;", "it&apos;s", "&#169;&#x1F511;", "a\tb", "it's\ttabbed", "&amp;", "&#38;"]
+# … and with ampersands that are not references (not well-formed XML; the reader accepts them verbatim as well)
+BARE_AMP_IDS = ["AT&T", "a&amp", "a&;b", "&", "a&&b", "a& b", "a&#;b", "a&#xZ;b", "a&unknown;b"]
 
 
 def rsa_pool() -> dict[int, list[Any]]:
@@ -325,6 +345,56 @@ def plain_text(s: str, *, attr: bool) -> bool:
     if not attr and s != s.strip():
         return False
     return True
+
+
+_REFERENCE = re.compile(r"&(?:amp|lt|gt|quot|apos|#[0-9]+|#x[0-9A-Fa-f]+);")
+
+
+def attr_texts(resp: Any) -> list[str]:
+    """The texts a response carries into ATTRIBUTES of the document (copied from the KSR / configuration)."""
+    out = [resp.id, resp.domain]
+    for b in resp.bundles:
+        out.append(b.id)
+        out += [k.key_identifier for k in b.keys] + [s.key_identifier for s in b.signatures]
+    return out
+
+
+def map_attr_texts(resp: Any, f: Any) -> Any:
+    bundles = [
+        b.replace(id=f(b.id), keys={k.replace(key_identifier=f(k.key_identifier)) for k in b.keys}, signatures={s.replace(key_identifier=f(s.key_identifier)) for s in b.signatures})
+        for b in resp.bundles
+    ]
+    return resp.replace(id=f(resp.id), domain=f(resp.domain), bundles=bundles)
+
+
+def special_text_class(resp: Any) -> str | None:
+    """None, or how a response OUTSIDE in_domain is special only by XML-special attribute text that the reader hands over
+    verbatim: "references" (every `&` starts a well-formed reference; tabs) / "not-wellformed" (some `&` does not).  Decided by
+    replacing every reference, ampersand and tab by a plain character and asking in_domain again: nothing else may be unusual."""
+    import ceremony_run as R
+
+    texts = attr_texts(resp)
+    if not any("&" in t or "\t" in t for t in texts):
+        return None
+    try:
+        plain = map_attr_texts(resp, lambda t: _REFERENCE.sub("x", t).replace("&", "x").replace("\t", " "))
+    except Exception:  # noqa: BLE001
+        return None
+    if not in_domain(plain)[0]:
+        return None
+    try:
+        for t in texts:
+            R.resolve_references(t, attr=True)
+    except ValueError:
+        return "not-wellformed"
+    return "references"
+
+
+def as_standard_parser_shows(resp: Any) -> Any:
+    """The response with every attribute text as a standard XML parser shows it (references resolved, tabs normalised)."""
+    import ceremony_run as R
+
+    return map_attr_texts(resp, lambda t: R.resolve_references(t, attr=True))
 
 
 def whole_seconds_in_range(td: timedelta) -> bool:
@@ -822,8 +892,12 @@ def judge_response(res: Result, tag: str, resp: Any, model_text: Any, model_tree
     from kskm.skr.validate import validate_response
 
     dom, why = in_domain(resp)
+    special = None if dom else special_text_class(resp)  # reachable all the same: XML-special text handed over verbatim
     n = len(resp.bundles)
     case = {"tag": tag, "n_bundles": n, "real_signatures": real, "in_domain": dom, **describe(resp)}
+    if special:
+        case["verbatim_text"] = special
+        res.bump("verbatim-text:" + special)
     if zone is not None:
         case["process_time_zone"] = zone
     res.count({"tag": tag, "r": case["response"]})
@@ -843,7 +917,7 @@ def judge_response(res: Result, tag: str, resp: Any, model_text: Any, model_tree
         elif not same_outcome(impl_text, model_text):
             res.disagreement("skr_to_xml: model text != implementation text", case, _clip(impl_text), _clip(model_text), first_difference=_first_diff(impl_text, model_text))
     if "ok" not in impl_text:
-        if dom:
+        if dom or special:
             res.violation("emitted SKR: the writer fails on a response of its domain", case, key=f"writer:{impl_text}", impl=impl_text)
         else:
             res.bump("out-of-domain:writer-error")
@@ -854,9 +928,9 @@ def judge_response(res: Result, tag: str, resp: Any, model_text: Any, model_tree
     # (b) read back
     back = read_back(text)
     readback_ok = "ok" in back and back["ok"] == resp
-    if dom:
+    if dom or special:
         if not readback_ok:
-            key = "one-bundle" if n == 1 else "readback"
+            key = ("one-bundle" if n == 1 else "readback") if dom else f"readback-verbatim:{special}"
             res.violation(
                 "emitted SKR does not read back",
                 case,
@@ -868,7 +942,7 @@ def judge_response(res: Result, tag: str, resp: Any, model_text: Any, model_tree
     else:
         res.bump("out-of-domain:readback-" + ("same" if readback_ok else "differs"))
     # (c) validation of the re-read response
-    if real and dom and readback_ok:
+    if real and (dom or special) and readback_ok:
         v = run_impl(lambda: validate_response(back["ok"], ResponsePolicy(num_bundles=n, validate_signatures=True)), conv=bool)
         res.bump("validate_response:" + ("accepted" if v == {"ok": True} else "refused"))
         if v != {"ok": True}:
@@ -878,30 +952,34 @@ def judge_response(res: Result, tag: str, resp: Any, model_text: Any, model_tree
         root = ET.fromstring(text.encode("utf-8", "surrogatepass"))
     except Exception as exc:  # noqa: BLE001
         root = None
-        if dom:
+        if dom or special == "references":
             res.violation("emitted SKR is not well-formed XML", case, key="wellformed", impl=repr(exc)[:200])
+        elif special:
+            res.bump("verbatim-text:not-wellformed in, not-wellformed out (read-back and validation judged)")
         else:
             res.bump("out-of-domain:not-wellformed")
     if root is not None:
         errs = schema().validate(root)
-        if dom:
+        if dom or special == "references":
             if errs:
                 res.violation("emitted SKR does not conform to schema/ksr.rnc", case, key="schema", errors=errs)
             try:
                 ext = et_extract(root)
             except Exception as exc:  # noqa: BLE001
                 ext = exc
-            if isinstance(ext, Exception) or ext != resp:
+            # (texts with references: the standards parser shows them resolved — compared with this harness's own resolution)
+            shown = resp if dom else as_standard_parser_shows(resp)
+            if isinstance(ext, Exception) or ext != shown:
                 res.violation(
                     "emitted SKR: a standards XML parser reads a different response",
                     case,
-                    key="standards-parser",
-                    impl=repr(ext)[:200] if isinstance(ext, Exception) else _diff_response(resp, ext),
+                    key="standards-parser" if dom else "standards-parser-verbatim",
+                    impl=repr(ext)[:200] if isinstance(ext, Exception) else _diff_response(shown, ext),
                 )
             if not key_order_ok(root):
                 res.violation("emitted SKR: keys not in ascending key-tag order", case, key="key-order")
             if model_tree is not None and "tree" in model_tree:
-                if et_tree(root) != model_tree["tree"]:
+                if dom and et_tree(root) != model_tree["tree"]:
                     res.disagreement("treeOf: model tree != ElementTree reading of the implementation's text", case, _clip(et_tree(root)), _clip(model_tree["tree"]))
                 if model_tree.get("render") != text:
                     res.disagreement("renderDoc (treeOf r) != implementation text", case, _clip(text), _clip(model_tree.get("render")), first_difference=_first_diff({"ok": text}, {"ok": model_tree.get("render")}))
@@ -1376,7 +1454,7 @@ def witnesses(res: Result, model_lines: list[dict[str, Any]], pending: list[Any]
     resp = mk_response(r, 2, real=False, start_us=-30610224000 * SEC - 40 * DAY, pool=pool)
     pending.append(("F7:year<1000", resp, False, None))
     model_lines.append({"op": "skr_to_xml", "response": response_j(resp)})
-    for bad in BAD_IDS:
+    for bad in dict.fromkeys(BAD_IDS + REFERENCE_IDS + BARE_AMP_IDS):
         for where in (("id",) if bad in ('a"b', "a>b", "") else ("id", "domain", "bundle", "key")):
             base = mk_response(r, 2, real=False, pool=pool)
             try:
@@ -1451,6 +1529,8 @@ def _run(tier: str, driver_ok: bool) -> Result:
         "(ZSK/ZSK, ZSK/KSK, KSK/KSK, with revoked KSK; real twin keys both signing, and non-signing keys crafted to a victim's tag; counters shared-key-tag:*); "
         "RSA-SHA256/512 policies with 1..3 entries (0 as boundary witness); durations from the boundary list "
         f"{BOUNDARY_SECONDS} s + random whole seconds 0..400 d; ids from a dictionary (spaces, non-ASCII, '/', \"KSR\") and outside it (quotes, markup, control characters); "
+        "XML-special text that the repository's reader hands over verbatim (entity / character references incl. the doubly escaped &amp;amp;, tabs, ampersands that are no reference) in id / domain / bundle ids / key identifiers, "
+        "n = 1..9, real and arbitrary signatures, and each such text at each position: read-back identity, validation, standards parser == response with references resolved (counters verbatim-text:*); "
         "datetimes with UTC and non-UTC tzinfo; every byte offset of four emitted files; codecs on >= 20 000 values incl. malformed strings; "
         "environment independence: responses starting at every instant of the DST lattice of harness/tzenv.py (1..3 bundles, real / arbitrary signatures, four tzinfos) and a slice of the real / fake / shared-tag responses "
         f"through (a)-(d) under the run's zone and with the PROCESS time zone switched to {', '.join(z[0] for z in lib.non_utc_zones())} (text equal to the UTC run's and the model's; counters tz:*), "
@@ -1484,6 +1564,13 @@ def _run(tier: str, driver_ok: bool) -> Result:
         for k in range(12 if big else 4):
             tz = r3.choice([timezone.utc, timezone(timedelta(hours=5, minutes=30)), timezone(timedelta(hours=-8))])
             add(f"shared-tag:fake:{n}:{k}", mk_response(r3, n, real=False, n_algs=(r3.randrange(1, 4), r3.randrange(1, 4)), tz=tz, pool=pool, shared_tags=True), False)
+    # XML-special text the reader hands over verbatim (REFERENCE_IDS / BARE_AMP_IDS) in ids, domain, bundle ids, key identifiers: own PRNG stream, every run
+    r5 = lib.rng("C11:verbatim")
+    for n in range(1, 10):
+        for k in range(3 if big else 1):
+            add(f"verbatim:real:{n}:{k}", mk_response(r5, n, real=True, ids=REFERENCE_IDS, pool=pool), True)
+        for k in range(9 if big else 3):
+            add(f"verbatim:fake:{n}:{k}", mk_response(r5, n, real=False, ids=REFERENCE_IDS + (BARE_AMP_IDS if k % 3 == 2 else []), n_algs=(r5.randrange(1, 4), r5.randrange(1, 4)), pool=pool), False)
     # duration boundary lattice: every boundary value in every policy field position
     for i, s in enumerate(BOUNDARY_SECONDS):
         base = mk_response(r, 2, real=False, pool=pool)
@@ -1514,7 +1601,7 @@ def _run(tier: str, driver_ok: bool) -> Result:
         w, back = judge_response(res, tag, resp, m_text, m_tree if isinstance(m_tree, dict) else None, real=real, sample=(idx in (0, 11)))
         utc_text[idx] = w
         dom, why = in_domain(resp)
-        if not dom:
+        if not dom and (force_key or special_text_class(resp) is None):  # (verbatim-text responses are JUDGED by judge_response, not merely noted)
             _note_witness(res, tag, resp, why, force_key, w, back)
 
     # (h) the same responses with the time zone of the process switched: same model answers, same oracles, same text
